@@ -1,6 +1,6 @@
 (* C18: requests posted through the frameworks' own test clients against Model/Http.v. *)
 From Coq Require Import ZArith List String Ascii Bool.
-From PJ Require Import Base.Json Base.Res Generated.Consts Model.Http.
+From PJ Require Import Base.Json Base.Res Generated.Consts Model.Msg Model.Dispatch Model.Http.
 Import ListNotations.
 Open Scope string_scope. Open Scope list_scope.
 
@@ -28,7 +28,9 @@ Definition ok (c : case) : bool :=
     | BUndecodable => Z.eqb (o_status o) 400 && Nat.eqb (o_calls o) 0
     | BText None => Z.eqb (o_status o) 200 && match o_body o with None => true | Some _ => false end && Nat.eqb (o_calls o) (expected_calls c)
     | BText (Some (doc, codes)) =>
-        Z.eqb (o_status o) (status_of (effective_status (integ c) (sfn c)) codes)
+        (* the error tuple of a response document has one entry per answered call, 0 for a success (theorem C01_wf) *)
+        list_eqb Z.eqb codes (codes_of_doc doc)
+        && Z.eqb (o_status o) (status_of (effective_status (integ c) (sfn c)) (codes_of_doc doc))
         && ostr_eqb (o_ctype o) (Some default_content_type)
         && option_eqb json_equiv (o_body o) (Some doc) && Nat.eqb (o_calls o) (expected_calls c)
     end
